@@ -133,11 +133,46 @@ pub fn run(ctx: &mut Ctx, replay: Option<&str>) {
             cases.push((control, false));
         }
     }
+    if replay.is_none() {
+        // claim sets whose member names look like syntax to some layer (JSON Pointer escapes, JSONPath roots, ...): a reserved
+        // name planted in every object of each
+        let mut r = ctx.rng.fork(9_999_991);
+        for (claims, paths) in notable_claims(crate::imp::now()) {
+            let mut ps = vec![];
+            object_paths(&claims, &vec![], &mut ps);
+            for (k, at) in ps.iter().enumerate() {
+                let mut bad = claims.clone();
+                plant(&mut bad, at, if k % 2 == 0 { "_sd" } else { "..." }, json!("user-data"), &mut r);
+                let st = match k % 4 { 0 => Strategy::All, 1 => Strategy::Top, 2 => Strategy::Custom(paths.clone()), _ => Strategy::None };
+                cases.push((IssueArgs { claims: bad, strategy: st.clone(), holder: None, decoy: k % 2 == 1, fmt: if k % 3 == 0 { Fmt::Json } else { Fmt::Compact }, key: crate::keys::KeyId::IssuerEc, alg: None, queue: None }, true));
+                if k == 0 {
+                    cases.push((IssueArgs { claims: claims.clone(), strategy: st, holder: None, decoy: false, fmt: Fmt::Compact, key: crate::keys::KeyId::IssuerEc, alg: None, queue: None }, false));
+                }
+                ctx.count("planted.in_notable_claim_set");
+            }
+        }
+    }
     let mut reqs = vec![];
     let mut results = vec![];
-    for (a, _) in &cases {
+    for (ci, (a, planted)) in cases.iter().enumerate() {
         ctx.evaluations += 1;
-        let r = issue(a);
+        // every fourth planted claim set is handed to ONE issuer instance that has already refused exactly these claims (under
+        // another strategy and format): the refusal is a property of the claims, not of what the instance has seen
+        let r = if *planted && ci % 4 == 1 {
+            let mut first = a.clone();
+            first.strategy = Strategy::All;
+            first.fmt = a.fmt.other();
+            match issue_sequence(a.key, a.alg.clone(), vec![first, a.clone()]) {
+                Some(mut seq) if seq.len() == 2 => {
+                    ctx.count("issuer.reused_instance(second submission of the same claims)");
+                    ctx.impl_calls += 1;
+                    seq.pop().unwrap()
+                }
+                _ => issue(a),
+            }
+        } else {
+            issue(a)
+        };
         ctx.impl_calls += 1;
         reqs.push(issue_request(reqs.len(), a, &r));
         results.push(r);
